@@ -27,7 +27,7 @@ EXPLANATION = (
 
 def run(ctx: Ctx):
     ctx.attempt(eligibility, ctx)
-    ctx.attempt(c17.dispatcher_filter, ctx)
+    ctx.attempt(c17.dispatcher_filter, ctx, True)
     ctx.attempt(c10.dispatcher, ctx)
     ctx.attempt(receiver_role, ctx)
     ctx.attempt(matrix, ctx)
